@@ -135,7 +135,7 @@ var mutants = []Mutant{
 	{"C20", "swr-uses-caller-request", "roundtripper.go", [][2]string{{"req2 := req.Clone(req.Context())", "req2 := req"}}, "C20.6", "the goroutine works on the caller's request object"},
 	{"C16", "transport-per-request-state", "roundtripper.go", [][2]string{{"\turlKey := r.uk.URLKey(req.URL)\n", "\turlKey := r.uk.URLKey(req.URL)\n\tr.swrTimeout += 0\n"}}, "C16.3", "transport field written per request"},
 	{"C16", "lazy-init-without-once", "internal/normalization.go", [][2]string{{"\tnormalizationHeader.Do(func() {", "\tfunc() {"}, {"\t\t\tnormalizationHeader.byCaseInsensitive[field] = struct{}{}\n\t\t}\n\t})", "\t\t\tnormalizationHeader.byCaseInsensitive[field] = struct{}{}\n\t\t}\n\t}()"}}, "C16.4", "racy lazy initialisation"},
-	{"C16", "background-shares-entry", "roundtripper.go", [][2]string{{"\t\tstored, err := r.cache.Get(storedID, req)\n\t\tif err != nil {\n\t\t\terrc <- err\n\t\t\treturn\n\t\t}\n", "\t\tstored := shared\n"}, {"go r.backgroundRevalidate(req2, stored.ID, urlKey, freshness, ccReq, refs, refIndex)", "go r.backgroundRevalidate(req2, stored.ID, stored, urlKey, freshness, ccReq, refs, refIndex)"}, {"\treq *http.Request,\n\tstoredID string,\n\turlKey string,", "\treq *http.Request,\n\tstoredID string,\n\tshared *internal.Response,\n\turlKey string,"}}, "C16.1", "D34"},
+	{"C16", "background-shares-entry", "roundtripper.go", [][2]string{{"\t\tstored, err := r.cache.Get(storedID, req)\n\t\tif err != nil {\n\t\t\tif resp.Body != nil {\n\t\t\t\t_ = resp.Body.Close()\n\t\t\t}\n\t\t\terrc <- err\n\t\t\treturn\n\t\t}\n", "\t\tstored := shared\n"}, {"go r.backgroundRevalidate(req2, stored.ID, urlKey, freshness, ccReq, refs, refIndex)", "go r.backgroundRevalidate(req2, stored.ID, stored, urlKey, freshness, ccReq, refs, refIndex)"}, {"\treq *http.Request,\n\tstoredID string,\n\turlKey string,", "\treq *http.Request,\n\tstoredID string,\n\tshared *internal.Response,\n\turlKey string,"}}, "C16.1", "D34"},
 	{"C16", "goroutine-result-in-shared-var", "store/fscache/fscache.go", [][2]string{{"\tgo func() {\n\t\tdefer close(errc)\n\t\terr := c.delete(key, gate.publish)\n\t\tif err != nil {\n\t\t\terrc <- &Error{\"Delete\", key, err}\n\t\t\treturn\n\t\t}\n\t\terrc <- nil\n\t}()\n", "\tvar last error\n\tgo func() {\n\t\tdefer close(errc)\n\t\terr := c.delete(key, gate.publish)\n\t\tlast = err\n\t\tif err != nil {\n\t\t\terrc <- &Error{\"Delete\", key, err}\n\t\t\treturn\n\t\t}\n\t\terrc <- nil\n\t}()\n\t_ = last\n"}}, "C16.6", "result handed over through a shared variable"},
 	// ---- C17
 	{"C17", "plaintext-on-encrypt-error", "store/fscache/fscache.go", [][2]string{{"\t\tvar err error\n\t\tentry, err = c.enc.Encrypt(entry)\n\t\tif err != nil {\n\t\t\treturn err\n\t\t}", "\t\tif enc, err := c.enc.Encrypt(entry); err == nil {\n\t\t\tentry = enc\n\t\t}"}}, "C17.1", "plaintext written when encryption fails"},
@@ -268,7 +268,17 @@ var mutants = []Mutant{
 	{"C16", "validators-compared-weakly", "helpers.go", [][2]string{{"\treturn req.Header.Get(\"If-None-Match\") == storedHdr.Get(\"ETag\") &&", "\treturn string(bytes.TrimPrefix([]byte(req.Header.Get(\"If-None-Match\")), []byte(\"W/\"))) == string(bytes.TrimPrefix([]byte(storedHdr.Get(\"ETag\")), []byte(\"W/\"))) &&"}}, "C16.15", "wave 7"},
 	{"C10", "fresh-map-into-the-callers-request", "helpers.go", [][2]string{{"\t\treq2.Header = make(http.Header) // Clone of a nil header is nil; the caller sets fields on it", "\t\treq.Header = make(http.Header) // Clone of a nil header is nil; the caller sets fields on it"}}, "C10.13", "wave 7"},
 	{"C06", "dump-error-overwritten", "internal/entry.go", [][2]string{{"\tif err != nil {\n\t\treturn nil, fmt.Errorf(\"failed to marshal response: %w\", err)\n\t}\n\n\tvar buf bytes.Buffer\n", "\n\tvar buf bytes.Buffer\n"}}, "C06.15", "wave 7"},
-	{"C10", "dropped-304-body-unguarded", "roundtripper.go", [][2]string{{"\t\t\tif resp.Body != nil { // a hand-written upstream may leave it nil\n\t\t\t\t_ = resp.Body.Close()\n\t\t\t}\n", "\t\t\t_ = resp.Body.Close()\n"}}, "C10.24", "D87"},
+	{"C10", "dropped-304-body-unguarded", "roundtripper.go", [][2]string{{"\t\t\tif resp.Body != nil { // a hand-written upstream may leave it nil\n\t\t\t\t_ = resp.Body.Close()\n\t\t\t}\n\t\t\terrc <- nil\n", "\t\t\t_ = resp.Body.Close()\n\t\t\terrc <- nil\n"}}, "C10.24", "D87"},
+	{"C11", "store-times-swapped", "roundtripper.go", [][2]string{{"_ = r.rs.StoreResponse(req, resp, urlKey, refs, start, end, refIndex)", "_ = r.rs.StoreResponse(req, resp, urlKey, refs, end, start, refIndex)"}}, "C11.19", "round 4"},
+	{"C09", "index-written-under-entry-id", "internal/responsestorerer.go", [][2]string{{"return r.cache.SetRefs(urlKey, refs)", "return r.cache.SetRefs(responseID, refs)"}}, "C09.26", "round 4"},
+	{"C04", "vary-resolved-from-response", "internal/responsestorerer.go", [][2]string{{"r.vhn.NormalizeVaryHeader(vary, req.Header)", "r.vhn.NormalizeVaryHeader(vary, resp.Header)"}}, "C04.20", "round 4"},
+	{"C04", "entry-read-at-position-zero", "roundtripper.go", [][2]string{{"r.cache.Get(refs[refIndex].ResponseID, req)", "r.cache.Get(refs[0].ResponseID, req)"}}, "C04.21", "round 4"},
+	{"C02", "write-back-before-merge", "internal/validationresponsehandler.go", [][2]string{{"\t\tupdateStoredHeaders(ctx.Stored.Data, resp)\n", ""}, {"\t\tCacheStatusRevalidated.ApplyTo(ctx.Stored.Data.Header)\n", "\t\tupdateStoredHeaders(ctx.Stored.Data, resp)\n\t\tCacheStatusRevalidated.ApplyTo(ctx.Stored.Data.Header)\n"}}, "C02.17", "wave 9"},
+	{"C13", "context-gets-freshness-copy", "roundtripper.go", [][2]string{{"\t\tCCReq:     ccReq,\n\t\tStored:    stored,\n\t\tRefs:      refs,\n\t\tRefIndex:  refIndex,\n\t\tFreshness: freshness,\n\t}\n\treturn r.vrh", "\t\tCCReq:     freshnessReq,\n\t\tStored:    stored,\n\t\tRefs:      refs,\n\t\tRefIndex:  refIndex,\n\t\tFreshness: freshness,\n\t}\n\treturn r.vrh"}, {"\t\tfreshnessReq = maps.Clone(ccReq)\n\t\tdelete(freshnessReq, \"max-age\")\n", "\t\tfreshnessReq = nil\n\t\t_ = maps.Clone(ccReq)\n"}}, "C13.20", "wave 9"},
+	{"C07", "key-keeps-userinfo", "internal/urlkeyer.go", [][2]string{{"\t// RFC 3986 §6.2.3: Only include port if it is non-default for the scheme.\n", "\tif normalized.User != nil {\n\t\thostPort = normalized.User.String() + \"@\" + hostPort\n\t}\n"}}, "C07.18", "wave 9"},
+	{"C19", "gate-refusal-nil", "store/fscache/fscache.go", [][2]string{{"\tif g.abandoned {\n\t\treturn context.DeadlineExceeded\n\t}\n\treturn step()", "\tif g.abandoned {\n\t\treturn nil\n\t}\n\treturn step()"}}, "C19.20", "wave 9"},
+	{"C20", "late-background-response-left-open", "roundtripper.go", [][2]string{{"\t\t\tif resp.Body != nil { // a hand-written upstream may leave it nil\n\t\t\t\t_ = resp.Body.Close()\n\t\t\t}\n\t\t\terrc <- req.Context().Err()\n", "\t\t\terrc <- req.Context().Err()\n"}}, "C20.13", "D90"},
+	{"C14", "root-opened-on-base", "store/fscache/fscache.go", [][2]string{{"\tc.base = filepath.Join(c.base, appname)\n\tif err := os.MkdirAll(c.base, 0o755); err != nil {", "\tdir := filepath.Join(c.base, appname)\n\tif err := os.MkdirAll(dir, 0o755); err != nil {"}}, "C14.27", "wave 9"},
 	{"C14", "listing-by-path-name", "store/fscache/fscache.go", [][2]string{{"\tc.dw = dirWalkerFunc(func(dir string, fn fs.WalkDirFunc) error {\n\t\treturn fs.WalkDir(c.root.FS(), \".\", func(name string, d fs.DirEntry, err error) error {\n\t\t\treturn fn(filepath.Join(dir, filepath.FromSlash(name)), d, err)\n\t\t})\n\t})\n", "\tc.dw = dirWalkerFunc(filepath.WalkDir)\n"}}, "C14.21", "D88"},
 	{"C19", "vary-name-as-sent", "internal/normalization.go", [][2]string{{"\t\t\tif !yield(storableValue(name), value) {", "\t\t\tif !yield(name, value) {"}}, "C19.15", "D89"},
 	{"C02", "directive-map-edited-in-place", "roundtripper.go", [][2]string{{"\t\tfreshnessReq = maps.Clone(ccReq)\n", "\t\tfreshnessReq, _ = ccReq, maps.Clone(ccReq)\n"}}, "C02.13", "wave 6: the parser's map is edited"},
